@@ -350,6 +350,11 @@ def check_c17(tier, seed, res, work):
         else:
             env.pop('GITHUB_ACTIONS', None)
             expected_path = outarg = '%s/%s' % (work, outname)
+        if trial % 3 != 0:
+            # a longer report of an earlier run is already there (a re-used results path)
+            with open(expected_path, 'w') as fh_:
+                fh_.write('[{"stale": "%s"}]\n' % ('x' * 300000))
+            stats['stale_report_in_place'] += 1
         rs_arg, cwd_ = rdir, work
         if os.path.isabs(outarg) and (not gha or os.path.isabs(ws)):
             bn_ = os.path.basename(rdir)
